@@ -154,6 +154,46 @@ def apply_temp_guard(text, counts):
     return re.sub(r'(\blet\s+(?:mut\s+)?\w+(?:\s*:\s*[^=;]+)?\s*=\s*[^;]*?\.ptr_guard(?:_mut)?\(\))\.as_ptr\(\)', fix, text)
 
 
+def macro_transcriber(src_text, name):
+    """the transcriber block of `macro_rules! name { (..) => { BODY }; }` (single-arm macros)"""
+    m = re.search(r'macro_rules!\s+' + re.escape(name) + r'\s*\{', src_text)
+    if not m:
+        raise LostAnchor('macro_rules! %s not found' % name)
+    mk = rsx.mask(src_text)
+    arm = src_text.find('=>', m.end())
+    op = src_text.find('{', arm)
+    cl = rsx.match_brace(src_text, mk, op)
+    pm = re.search(r'\(\s*\$(\w+)\s*:\s*expr\s*\)', src_text[m.end():arm])
+    if not pm:
+        raise LostAnchor('macro_rules! %s: expected a single `($x: expr)` arm' % name)
+    return pm.group(1), rsx.strip_comments(src_text[op + 1:cl])
+
+
+def expand_expr_macro(body, name, param, transcriber, counts):
+    """R15: NAME!(E) -> the macro's transcriber with $param := E, as a block expression.  A `break VALUE;`
+    inside the transcriber's loop (Verus: "complex break expressions") is desugared to
+    `RESULT = VALUE; break;` with RESULT declared before the loop and yielded after it."""
+    while True:
+        mk = rsx.mask(body)
+        k = -1
+        for mm in re.finditer(r'\b' + re.escape(name) + r'!\s*\(', body):
+            if mk[mm.start()] == 'c':
+                k = mm.start(); op = mm.end() - 1
+                break
+        if k < 0:
+            return body
+        cl = rsx.match_brace(body, mk, op)
+        arg = body[op + 1:cl]
+        t = transcriber.replace('$' + param, arg)
+        t, nb = re.subn(r'\bbreak\s+([A-Za-z_]\w*)\s*;', r'__%s_r = \1; break;' % name, t)
+        if nb:
+            t = '{ let __%s_r; %s __%s_r }' % (name, t.strip(), name)
+        else:
+            t = '{ %s }' % t.strip()
+        body = body[:k] + t + body[cl + 1:]
+        counts['R15'] = counts.get('R15', 0) + 1
+
+
 def apply_global(text, counts, extra=()):
     text = apply_macro_asserts(text, counts)
     text = apply_method_min(text, counts)
@@ -516,6 +556,9 @@ class Unit:
         if ncfg:
             self.rewrites['R9'] = self.rewrites.get('R9', 0) + ncfg
         body = '\n'.join(l for l in body.split('\n') if not ATTR_RE.match(l))
+        if 'retry_eintr!' in body:
+            prm, tr = macro_transcriber(self.src('src/io.rs').text, 'retry_eintr')
+            body = expand_expr_macro(body, 'retry_eintr', prm, tr, self.rewrites)
         sig = apply_global(sig, self.rewrites)
         body = apply_global(body, self.rewrites)
         if opts.get('asserts', '').startswith('guardif:'):
